@@ -871,7 +871,9 @@ def _run(${ctx}text, pos, start, fullparse):
         raise ParseError(message, pos)
 
 
-def visit(node):
+def visit(node, _keys=False):
+    # (_keys: also through the keys of dicts; the parser uses it to give every
+    # object of a result its position.)
     visited = set()
     stack = [node]
     while stack:
@@ -891,6 +893,8 @@ def visit(node):
 
         elif isinstance(node, dict):
             stack.extend(reversed(node.values()))
+            if _keys:
+                stack.extend(reversed(node.keys()))
 
         else:
             yield node
@@ -1014,7 +1018,7 @@ def _finalize_parse_info(text, nodes, pos, fullparse):
         line_numbers.append(line_numbers[-1])
         column_numbers.append(column_numbers[-1] + 1)
 
-    for node in visit(nodes):
+    for node in visit(nodes, True):
         pos_info = node._metadata.position_info
         # An object that a nested parse has finished already keeps its positions
         # (they refer to the text of that parse).
